@@ -532,7 +532,22 @@ func (h *Harness) perform(ctx vivid.ActorContext, a *scriptActor, act Action) {
 		for _, c := range ch {
 			h.emit(Obs{K: "S", A: c, N: act.N, Serial: sn, Snd: a.tok})
 		}
+		h.mu.Lock()
+		mark := len(h.cur)
+		h.mu.Unlock()
 		ctx.Broadcast(&probe{N: act.N, Serial: sn})
+		// Broadcast ranges over the children map: the order in which several copies become dead letters is Go's map
+		// iteration order, not a behaviour of the framework — canonical order: by receiver (the model's)
+		h.mu.Lock()
+		tail := h.cur[mark:]
+		onlyDead := true
+		for _, o := range tail {
+			onlyDead = onlyDead && o.K == "D" && o.Serial == sn
+		}
+		if onlyDead {
+			sort.SliceStable(tail, func(i, j int) bool { return tail[i].A < tail[j].A })
+		}
+		h.mu.Unlock()
 	case "spawn":
 		h.emit(Obs{K: "SP", A: a.tok, Who: act.T})
 		h.spawn(ctx, act.T, act.R)
